@@ -172,10 +172,10 @@ Proof.
     set (g0 := flat_map (fun c => match c with ModifyFK from _ => [DropFK from] | _ => [] end) tcs).
     set (g1 := map (fun c => match c with ModifyFK _ to => AddFK to | c => c end) tcs).
     assert (E0 : flat_map rm_keys (match g0 with [] => [] | _ :: _ => [ModifyTable t g0] end) =
-                 map (pair (t_name t)) (flat_map tc_rm g0)).
+                 map (pair (qn t)) (flat_map tc_rm g0)).
     { destruct g0; [reflexivity|]. simpl. rewrite app_nil_r. reflexivity. }
     assert (E1 : flat_map rm_keys (match g1 with [] => [] | _ :: _ => [ModifyTable t g1] end) =
-                 map (pair (t_name t)) (flat_map tc_rm g1)).
+                 map (pair (qn t)) (flat_map tc_rm g1)).
     { destruct g1; [reflexivity|]. simpl. rewrite app_nil_r. reflexivity. }
     rewrite flat_map_app, E0, E1, <- map_app. apply Permutation_map.
     unfold g0, g1. clear. induction tcs as [|tc tcs IH]; simpl; [constructor|].
@@ -250,4 +250,30 @@ Proof.
   split; [apply (split_replay_ok _ _ H2)|]. split.
   - apply (split_replay_ok _ _ (refine_split_ok mysql_sources mysql_refines out c H2)).
   - apply (split_replay_ok _ _ (refine_split_ok pg_sources pg_refines out c H2)).
+Qed.
+
+(** * topLevel: the schema-level changes of the list, each once and in order, in front; the table
+      changes, each once and in order, to the sort *)
+Definition schemas_of (l : list gchange) : list schange :=
+  flat_map (fun g => match g with GSchema c => [c] | GTable _ => [] end) l.
+Definition tables_of (l : list gchange) : list change :=
+  flat_map (fun g => match g with GSchema _ => [] | GTable c => [c] end) l.
+
+Lemma topLevel_spec l : topLevel l = (schemas_of l, tables_of l).
+Proof.
+  induction l as [|g l IH]; simpl; [reflexivity|].
+  rewrite IH. destruct g; reflexivity.
+Qed.
+
+Lemma plan_all_safe l c :
+  WF (tables_of l) -> consistent c (tables_of l) ->
+  exists r c', plan_all l = Some (schemas_of l, r) /\ plan (tables_of l) = POk r /\ replay r c = Some c'.
+Proof.
+  intros Hwf Hc. destruct (plan_safe (tables_of l) c Hwf Hc) as [r [c' [Hp Hr]]].
+  exists r, c'. unfold plan_all. rewrite topLevel_spec, Hp. split; [reflexivity|]. split; [reflexivity|exact Hr].
+Qed.
+
+Lemma plan_all_total l : exists r, plan_all l = Some (schemas_of l, r).
+Proof.
+  destruct (plan_total (tables_of l)) as [r Hp]. exists r. unfold plan_all. rewrite topLevel_spec, Hp. reflexivity.
 Qed.
